@@ -35,7 +35,7 @@ LEVEL_TEXT = ("Exploration: generated call histories (other database families, o
               "deleting single reset lines.")
 FLOORS = {"quick": 150, "thorough": 1500}
 SHARDS = {"quick": 8, "thorough": 16}
-BUDGET = {"quick": 110, "thorough": 900, "replay": 1}
+BUDGET = {"quick": 110, "thorough": 800, "replay": 1}
 
 GLOBAL_SW = ["OutputStringOn", "LogStringOn", "DumpStringOn", "ErrorStringOn", "OutputFileOn", "LogFileOn", "DumpFileOn",
              "ErrorFileOn", "ErrorOn"]
@@ -854,6 +854,8 @@ def check_case(case, ctx):
                "followups_computing=%d" % min(computed, 4)]
     if other_family:
         classes.append("other_family_before")
+    if case["load"]["db"] in NO_ALK:
+        ctx.event("excluded_by_construction:inverse_probe_on_database_without_alkalinity")
     for t in tags:
         classes.append("hist_tag:" + t)
     if len(post) < len(case["post"]):
